@@ -1,6 +1,10 @@
 import GV.Model.Handshake
+import GV.Model.HandshakeDelivery
 import GV.Proofs.Handshake
+import GV.Proofs.VersionTable
+import GV.Proofs.WellFormed
 import GV.Lib.VersionTable
+import GV.Gen.HandshakeSends
 /-!
 C18 — Version negotiation agrees on the best common version.
 
@@ -196,6 +200,340 @@ theorem refusal_reported (lk : Lookup) (C S : VMap) (r : Refuse)
   unfold handshake at h ⊢
   simp only at h ⊢
   rw [h]; rfl
+
+/-- **The generated tables are honest** (hypothesis of `both_agree_fwd`, `query_table_roundtrip`):
+    every map `GetProtocolVersionMap*` builds, restricted to any subset of its versions in any
+    order, with any magic < 2^32 and any flags, is `Honest` for the decoder table of the
+    running code (regenerated). -/
+theorem generated_honest (shape : List (Nat × Nat)) (hs : shape ∈ GV.Proofs.VersionTable.shapes)
+    (ks : List Nat) (magic : Nat) (hm : magic < 4294967296) (dm ps q : Bool) (m : VMap)
+    (h : GV.Lib.VersionTable.genMap shape ks magic dm ps q = some m) :
+    Honest GV.Lib.VersionTable.lk m :=
+  GV.Proofs.VersionTable.genMap_honest shape hs ks magic hm dm ps q m h
+
+/-- Both sides agree, for the real tables: any two generated maps (any subsets, magics, flags). -/
+theorem both_agree_generated
+    (sc ss : List (Nat × Nat)) (hsc : sc ∈ GV.Proofs.VersionTable.shapes) (hss : ss ∈ GV.Proofs.VersionTable.shapes)
+    (kc ks : List Nat) (mc ms : Nat) (hmc : mc < 4294967296) (hms : ms < 4294967296)
+    (dmc psc qc dms pss qs : Bool) (C S : VMap)
+    (hC : GV.Lib.VersionTable.genMap sc kc mc dmc psc qc = some C)
+    (hS : GV.Lib.VersionTable.genMap ss ks ms dms pss qs = some S)
+    (v : Nat) (own peer : VData) (h : (handshake GV.Lib.VersionTable.lk C S).1 = .accept v own peer) :
+    (handshake GV.Lib.VersionTable.lk C S).2 = some (.finished v own) :=
+  both_agree_fwd _ C S (generated_honest sc hsc kc mc hmc dmc psc qc C hC)
+    (generated_honest ss hss ks ms hms dms pss qs S hS) v own peer h
+
+/-! ### the message-decoding stage in front of both handlers -/
+
+theorem encodeMap_all_wellFormed (lk : Lookup) (m : VMap) (h : Honest lk m) :
+    (encodeMap m).all (fun p => wellFormedOne p.2) = true := by
+  unfold encodeMap
+  rw [List.all_eq_true]
+  intro p hp
+  obtain ⟨e, he, rfl⟩ := List.mem_map.mp hp
+  exact GV.Proofs.WellFormed.encode_wellFormed e.2 (h e he).2
+
+/-- An honest initiator's proposal always passes message decoding: the responder's handler runs
+    on it (`handshake` may skip the decoding stage). -/
+theorem honest_proposal_decodes (lk : Lookup) (S C : VMap) (hC : Honest lk C) :
+    serverReceive lk S (encodeMap C) = some (serverNegotiate lk S (encodeMap C)) := by
+  unfold serverReceive
+  rw [encodeMap_all_wellFormed lk C hC]; rfl
+
+/-- Whatever an honest responder sends passes message decoding at the initiator: its handler runs. -/
+theorem honest_reply_decodes (lk : Lookup) (C S : VMap) (P : RawMap) (hS : Honest lk S) (m : SMsg)
+    (hm : (serverNegotiate lk S P).msg? = some m) : clientReceive lk C m = clientHandle lk C m := by
+  have hwf : m.wellFormed = true := by
+    cases hso : serverNegotiate lk S P with
+    | queryReply t =>
+      have ht : t = S := by
+        unfold serverNegotiate at hso
+        split at hso
+        · simp only [SOut.queryReply.injEq] at hso; exact hso.symm
+        · simp only at hso
+          split at hso
+          · cases hso
+          · split at hso
+            · cases hso
+            · split at hso
+              · cases hso
+              · split at hso
+                · cases hso
+                · split at hso <;> cases hso
+      rw [hso] at hm
+      simp only [SOut.msg?, Option.some.injEq] at hm
+      subst hm; subst ht
+      exact encodeMap_all_wellFormed lk _ hS
+    | refuse r =>
+      rw [hso] at hm
+      simp only [SOut.msg?, Option.some.injEq] at hm
+      subst hm; rfl
+    | accept v own peer =>
+      obtain ⟨_, _, _, hown, _⟩ := accept_is_max_common lk S P v own peer hso
+      rw [hso] at hm
+      simp only [SOut.msg?, Option.some.injEq] at hm
+      subst hm
+      exact GV.Proofs.WellFormed.encode_wellFormed own (hS (v, own) (lookupMap_some_mem hown)).2
+    | panic => rw [hso] at hm; simp [SOut.msg?] at hm
+  unfold clientReceive
+  simp [hwf]
+
+/-! ### independence of Go map iteration order (both maps) -/
+
+/-- outcomes equal up to the order in which the responder's own table is listed -/
+def SOut.sameAs : SOut → SOut → Prop
+  | .queryReply t, .queryReply t' => t.Perm t'
+  | a, b => a = b
+
+def COut.sameAs : COut → COut → Prop
+  | .queryDone t, .queryDone t' => t.Perm t'
+  | a, b => a = b
+
+theorem SOut.sameAs_refl (a : SOut) : SOut.sameAs a a := by
+  cases a <;> simp [SOut.sameAs]
+
+theorem COut.sameAs_refl (a : COut) : COut.sameAs a a := by
+  cases a <;> simp [COut.sameAs]
+
+theorem SOut.sameAs_cases (a b : SOut) (h : SOut.sameAs a b) :
+    (∃ t t', a = .queryReply t ∧ b = .queryReply t' ∧ t.Perm t') ∨ a = b := by
+  cases a <;> cases b <;> simp_all [SOut.sameAs]
+
+/-- **Permutation invariance of the responder.** Whatever order the proposal map and the
+    responder's own map are iterated in (maps have distinct keys), the outcome is the same
+    (a query reply carries the same table, as a map). -/
+theorem negotiate_perm_invariant (lk : Lookup) (S S' : VMap) (P P' : RawMap)
+    (hS : S'.Perm S) (hP : P'.Perm P) (hnS : (keys S).Nodup) (hnP : (keys P).Nodup) :
+    SOut.sameAs (serverNegotiate lk S' P') (serverNegotiate lk S P) := by
+  have hq : queryRequested lk P' = queryRequested lk P := any_perm hP _
+  have hpred : (fun v => (lookupMap S' v).isSome) = (fun v => (lookupMap S v).isSome) :=
+    funext fun v => by rw [lookupMap_perm hS hnS v]
+  have hinter : ((keys P').filter (fun v => (lookupMap S' v).isSome)).Perm
+      ((keys P).filter (fun v => (lookupMap S v).isSome)) := by
+    rw [hpred]; exact (hP.map _).filter _
+  have hkeys : (keys S').Perm (keys S) := hS.map _
+  unfold serverNegotiate
+  simp only [hq]
+  by_cases hqq : queryRequested lk P = true
+  · simp only [hqq, ↓reduceIte, SOut.sameAs]; exact hS
+  · simp only [hqq, Bool.false_eq_true, ↓reduceIte]
+    rw [hinter.isEmpty_eq]
+    by_cases he : ((keys P).filter (fun v => (lookupMap S v).isSome)).isEmpty = true
+    · simp only [he, ↓reduceIte, mismatch_list_order_independent S S' hkeys]
+      exact SOut.sameAs_refl _
+    · simp only [he, Bool.false_eq_true, ↓reduceIte]
+      rw [maxOf_perm hinter, lookupMap_perm hS hnS, lookupMap_perm hP hnP]
+      exact SOut.sameAs_refl _
+
+/-- The initiator's handler does not depend on the order of its own map either. -/
+theorem client_perm_invariant (lk : Lookup) (C C' : VMap) (hC : C'.Perm C) (hn : (keys C).Nodup)
+    (msg : SMsg) : clientHandle lk C' msg = clientHandle lk C msg := by
+  cases msg with
+  | accept v data => simp only [clientHandle, clientHandleAccept, lookupMap_perm hC hn v]
+  | refuse r => rfl
+  | queryReply t => rfl
+
+/-- **Permutation invariance of the whole handshake** between an initiator proposing `C` and a
+    responder with `S`: both ends' outcomes are independent of the iteration order of both maps. -/
+theorem handshake_perm_invariant (lk : Lookup) (C C' S S' : VMap)
+    (hC : C'.Perm C) (hS : S'.Perm S) (hnC : (keys C).Nodup) (hnS : (keys S).Nodup) :
+    SOut.sameAs (handshake lk C' S').1 (handshake lk C S).1 ∧
+    (match (handshake lk C' S').2, (handshake lk C S).2 with
+     | some a, some b => COut.sameAs a b
+     | none, none => True
+     | _, _ => False) := by
+  have hP : (encodeMap C').Perm (encodeMap C) := hC.map _
+  have hnP : (keys (encodeMap C)).Nodup := by rw [keys_encodeMap]; exact hnC
+  have hs := negotiate_perm_invariant lk S S' (encodeMap C) (encodeMap C') hS hP hnS hnP
+  unfold handshake
+  refine ⟨hs, ?_⟩
+  simp only
+  generalize serverNegotiate lk S' (encodeMap C') = a at hs
+  generalize serverNegotiate lk S (encodeMap C) = b at hs
+  rcases SOut.sameAs_cases a b hs with ⟨t, t', rfl, rfl, hp⟩ | rfl
+  · simp only [SOut.msg?, Option.map_some, clientHandle, COut.sameAs]
+    unfold decodeTable encodeMap
+    exact (hp.map _).filterMap _
+  · cases hm : a.msg? with
+    | none => simp
+    | some msg =>
+      simp only [Option.map_some]
+      rw [client_perm_invariant lk C C' hC hnC]
+      exact COut.sameAs_refl _
+
+/-! ### delivery of the responder's reply (the defect repaired by the server `fix:`) -/
+
+section Delivery
+open GV.Model.HandshakeDelivery
+
+theorem wire_mono (s s' : St) (a : Act) (h : step s a = some s') (m : SMsg) (hm : m ∈ s.wire) :
+    m ∈ s'.wire := by
+  cases a with
+  | handler =>
+    simp only [step] at h
+    split at h
+    · split at h <;> simp at h; subst h; exact hm
+    · split at h <;> simp at h <;> (subst h; exact hm)
+  | sendLoop =>
+    simp only [step] at h
+    split at h
+    · simp at h
+    · split at h <;> simp at h
+      subst h; simp [hm]
+  | loopExit =>
+    simp only [step] at h
+    split at h <;> simp at h
+    subst h; exact hm
+
+/-- invariant of the program `[sendWait m, returnErr]` -/
+def WaitInv (m : SMsg) (s : St) : Prop :=
+  (s.prog = [.sendWait m, .returnErr] ∧ s.waiting = none ∧ s.stopped = false) ∨
+  (s.prog = [.returnErr] ∧ s.waiting = some m ∧ s.stopped = false) ∨
+  (s.prog = [.returnErr] ∧ s.waiting = none ∧ s.stopped = false ∧ m ∈ s.wire) ∨
+  (s.prog = [] ∧ s.waiting = none ∧ m ∈ s.wire)
+
+theorem waitInv_step (m : SMsg) (s s' : St) (a : Act) (hi : WaitInv m s) (h : step s a = some s') :
+    WaitInv m s' := by
+  have hmono := wire_mono s s' a h m
+  cases a with
+  | handler =>
+    rcases hi with ⟨hp, hw, hs⟩ | ⟨hp, hw, hs⟩ | ⟨hp, hw, hs, hm⟩ | ⟨hp, hw, hm⟩
+    · simp only [step, hw, hp, Option.some.injEq] at h
+      subst h; right; left; simp [hs]
+    · simp only [step, hw] at h
+      split at h <;> simp at h
+      rename_i hmw
+      subst h; right; right; left; simp [hp, hs, hmw]
+    · simp only [step, hw, hp, Option.some.injEq] at h
+      subst h; right; right; right; simp [hm]
+    · simp [step, hw, hp] at h
+  | sendLoop =>
+    have hsame : s'.prog = s.prog ∧ s'.waiting = s.waiting ∧ s'.stopped = s.stopped := by
+      simp only [step] at h
+      split at h
+      · simp at h
+      · split at h <;> simp at h
+        subst h; simp
+    rcases hi with ⟨hp, hw, hs⟩ | ⟨hp, hw, hs⟩ | ⟨hp, hw, hs, hm⟩ | ⟨hp, hw, hm⟩
+    · left; simp [hsame, hp, hw, hs]
+    · right; left; simp [hsame, hp, hw, hs]
+    · right; right; left; simp [hsame, hp, hw, hs, hmono hm]
+    · right; right; right; simp [hsame, hp, hw, hmono hm]
+  | loopExit =>
+    have hsame : s'.prog = s.prog ∧ s'.waiting = s.waiting ∧ s'.stopped = s.stopped ∧ s'.wire = s.wire := by
+      simp only [step] at h
+      split at h <;> simp at h
+      subst h; simp
+    rcases hi with ⟨hp, hw, hs⟩ | ⟨hp, hw, hs⟩ | ⟨hp, hw, hs, hm⟩ | ⟨hp, hw, hm⟩
+    · left; simp [hsame, hp, hw, hs]
+    · right; left; simp [hsame, hp, hw, hs]
+    · right; right; left; simp [hsame, hp, hw, hs, hm]
+    · right; right; right; simp [hsame, hp, hw, hm]
+
+theorem waitInv_run (m : SMsg) (s s' : St) (sched : List Act) (hi : WaitInv m s)
+    (h : run s sched = some s') : WaitInv m s' := by
+  induction sched generalizing s with
+  | nil => simp only [run, Option.some.injEq] at h; subst h; exact hi
+  | cons a as ih =>
+    simp only [run] at h
+    cases hs : step s a with
+    | none => simp [hs] at h
+    | some s1 => rw [hs] at h; exact ih s1 (waitInv_step m s s1 a hi hs) h
+
+/-- **The refusal / query reply is on the wire before the protocol stops.** With the replies
+    that precede an error return sent by `SendMessageAndWait` (the code after the fix), in every
+    schedule of handler, send loop and send-loop exit: whenever the protocol has been stopped,
+    the reply has been written. -/
+theorem reply_on_wire_before_stop (so : SOut) (m : SMsg) (hm : so.msg? = some m)
+    (hstop : ∀ v own peer, so ≠ .accept v own peer)
+    (sched : List Act) (s : St) (h : run (init (handlerProgram true so)) sched = some s)
+    (hs : s.stopped = true) : m ∈ s.wire := by
+  have hinit : WaitInv m (init (handlerProgram true so)) := by
+    cases so with
+    | queryReply t => simp only [SOut.msg?, Option.some.injEq] at hm; subst hm; left; simp [init, handlerProgram]
+    | refuse r => simp only [SOut.msg?, Option.some.injEq] at hm; subst hm; left; simp [init, handlerProgram]
+    | accept v own peer => exact absurd rfl (hstop v own peer)
+    | panic => simp [SOut.msg?] at hm
+  rcases waitInv_run m _ s sched hinit h with ⟨_, _, h3⟩ | ⟨_, _, h3⟩ | ⟨_, _, h3, _⟩ | ⟨_, _, hw⟩
+  · rw [h3] at hs; cases hs
+  · rw [h3] at hs; cases hs
+  · rw [h3] at hs; cases hs
+  · exact hw
+
+/-- An acceptance never stops the protocol (its reply is not in danger). -/
+theorem accept_never_stops (v : Nat) (own peer : VData) (w : Bool) (sched : List Act) (s : St)
+    (h : run (init (handlerProgram w (.accept v own peer))) sched = some s) : s.stopped = false := by
+  have key : ∀ (s0 : St), s0.stopped = false → Instr.returnErr ∉ s0.prog →
+      ∀ sched s, run s0 sched = some s → s.stopped = false := by
+    intro s0 h0 hp sched
+    induction sched generalizing s0 with
+    | nil => intro s h; simp only [run, Option.some.injEq] at h; subst h; exact h0
+    | cons a as ih =>
+      intro s h
+      simp only [run] at h
+      cases hs : step s0 a with
+      | none => simp [hs] at h
+      | some s1 =>
+        rw [hs] at h
+        refine ih s1 ?_ ?_ s h
+        · cases a <;> simp only [step] at hs
+          · split at hs
+            · split at hs <;> simp at hs; subst hs; exact h0
+            · split at hs <;> simp at hs
+              · subst hs; exact h0
+              · subst hs; exact h0
+              · rename_i r hpr; exact absurd (by rw [hpr]; simp) hp
+              · subst hs; exact h0
+          · split at hs
+            · simp at hs
+            · split at hs <;> simp at hs; subst hs; exact h0
+          · split at hs <;> simp at hs; subst hs; exact h0
+        · cases a <;> simp only [step] at hs
+          · split at hs
+            · split at hs <;> simp at hs; subst hs; exact hp
+            · split at hs <;> simp at hs
+              all_goals (first
+                | (subst hs; rename_i r hpr; intro hc; apply hp; rw [hpr]; exact List.mem_cons_of_mem _ hc)
+                | (rename_i r hpr; exact absurd (by rw [hpr]; simp) hp))
+          · split at hs
+            · simp at hs
+            · split at hs <;> simp at hs; subst hs; exact hp
+          · split at hs <;> simp at hs; subst hs; exact hp
+  exact key _ (by simp [init]) (by simp [init, handlerProgram]) sched s h
+
+/-- **The defect that was repaired**: with plain `SendMessage` (the code before the fix) there is
+    a schedule — handler enqueues, handler returns the error, the send loop takes its stop branch —
+    after which the protocol is stopped, the reply was never written and nothing can write it
+    any more. -/
+theorem old_code_loses_reply (so : SOut) (m : SMsg) (hm : so.msg? = some m)
+    (hstop : ∀ v own peer, so ≠ .accept v own peer) :
+    ∃ sched s, run (init (handlerProgram false so)) sched = some s ∧
+      s.stopped = true ∧ m ∉ s.wire ∧ ∀ a, step s a = none := by
+  refine ⟨[.handler, .handler, .loopExit], ?_⟩
+  cases so with
+  | queryReply t =>
+    simp only [SOut.msg?, Option.some.injEq] at hm; subst hm
+    refine ⟨{ prog := [], queue := [.queryReply (encodeMap t)], stopped := true, loopExited := true },
+      rfl, rfl, by simp, ?_⟩
+    intro a; cases a <;> rfl
+  | refuse r =>
+    simp only [SOut.msg?, Option.some.injEq] at hm; subst hm
+    refine ⟨{ prog := [], queue := [.refuse r], stopped := true, loopExited := true }, rfl, rfl, by simp, ?_⟩
+    intro a; cases a <;> rfl
+  | accept v own peer => exact absurd rfl (hstop v own peer)
+  | panic => simp [SOut.msg?] at hm
+
+/-- Regenerated tie (go/ast of handshake/server.go on every run): every send in
+    `handleProposeVersions` that is followed by an error return uses `SendMessageAndWait`; there are
+    six of them (query reply and five refusals) and the acceptance is the only plain send. -/
+theorem server_waits_before_stopping :
+    (∀ e ∈ GV.Gen.HandshakeSends.serverSends, e.2.2 = true → e.2.1 = "SendMessageAndWait") ∧
+    (GV.Gen.HandshakeSends.serverSends.filter (fun e => e.2.2)).length = 6 ∧
+    (GV.Gen.HandshakeSends.serverSends.filter (fun e => !e.2.2)).map (·.1) = ["msgAcceptVersion"] ∧
+    (GV.Gen.HandshakeSends.serverSends.filter (fun e => e.1 == "msgQueryReply")).length = 1 := by
+  decide
+
+end Delivery
 
 /-- Non-vacuity on the regenerated tables: two NtN endpoints with overlapping subsets agree on 13. -/
 example :
